@@ -1,5 +1,6 @@
 mod analysis;
 mod check;
+mod codec;
 mod gen;
 mod hostile;
 mod oracle;
